@@ -196,6 +196,12 @@ func material(k *realKey, enc string, rng *mrand.Rand) ([]byte, error) {
 	case "nonminimal":
 		std, _ := crypto.PubKeyToStdKey(k.pub)
 		return rsaDER(std.(*rsa.PublicKey), false, true), nil
+	case "pkix":
+		std, err := crypto.PubKeyToStdKey(k.pub)
+		if err != nil {
+			return nil, err
+		}
+		return x509.MarshalPKIXPublicKey(std)
 	case "garbage":
 		g := make([]byte, len(c))
 		rng.Read(g)
